@@ -137,7 +137,7 @@ def solve_one(ob_id, smt, model_terms, timeout_s, want_both=False, expect="unsat
                         del procs[s2]
                 elif st in ("sat", "unsat") and want_both:
                     # cross-solver mode: the second opinion is wanted when it is cheap, not at the price of the whole budget
-                    deadline = min(deadline, time.time() + max(5.0, 0.15 * timeout_s))
+                    deadline = min(deadline, time.time() + min(10.0, max(3.0, 0.05 * timeout_s)))
         if procs:
             time.sleep(0.01)
     for s, (p, path) in procs.items():
